@@ -38,7 +38,7 @@ for d in sorted(glob.glob("/verif/seeded/*")):
         cb = "n/a - neutralised by a later fix: commit (demo passes with the patch on the current tree)"
     rows.append("| %s | %s | %s | %s | %s | %s | %s |" % (os.path.basename(d), m.get("property"), title, demo, suite, cb, ", ".join(p for p in initially_missed if p in caught_by) or "-"))
 hdr = ["## 7. Seeded breaking changes (independent authors) and which checks catch them", "",
-       "Two rounds: bug1/bug2 (first round, 39 changes) and bug3/bug4 (second round, 36 changes, authors asked for the less obvious corners; near-duplicates of first-round ideas were kept when the diff differs). A patch that no longer applies because a later `fix:` commit rewrote the same lines keeps its recorded evaluation (C18-bug1) or was re-applied by hand (C13-bug3, original kept as patch.orig.diff). Each row is a directory under `seeded/`. demo = exit code of the author's demonstration on the clean / the patched tree (0/1 expected); suite = the repository's suite passes with the patch (private network namespace); caught by = registered quick checks that exit 1 on the patched tree; strengthened = checks that missed the change at first and catch it after being strengthened (what was added is in the commit log and §4/§2).", "",
+       "Rounds: bug1/bug2 (first round, 39 changes), bug3/bug4 (second round, 36, authors asked for the less obvious corners; near-duplicates of first-round ideas were kept when the diff differs), then rounds of three changes per author for C04–C15 and C17–C19 with a different emphasis each (round 3: two things must coincide; round 4: non-default configuration and N-th use; round 5: failure and partial-progress paths), numbered with the next free index per property. A patch that no longer applies because a later `fix:` commit rewrote the same lines keeps its recorded evaluation (C18-bug1) or was re-applied by hand (C13-bug3, original kept as patch.orig.diff). Each row is a directory under `seeded/`. demo = exit code of the author's demonstration on the clean / the patched tree (0/1 expected); suite = the repository's suite passes with the patch (private network namespace); caught by = registered quick checks that exit 1 on the patched tree; strengthened = checks that missed the change at first and catch it after being strengthened (what was added is in the commit log and §4/§2).", "",
        "| seeded change | property | what it breaks | demo | suite | caught by | strengthened |", "|---|---|---|---|---|---|---|"]
 txt = "\n".join(hdr + rows) + "\n"
 p = "/verif/DESIGN.md"
